@@ -108,31 +108,82 @@ class StepLimit(Exception):
 class step_bound:
     """Bounded-progress monitor (a *logical* bound, not a wall-clock one): counts LINE events of the given
     code objects with sys.monitoring and raises StepLimit inside the library once `limit` lines were
-    executed without the block finishing.  Restates 'the call terminates' as 'terminates within N steps'."""
+    executed without the block finishing.  Restates 'the call terminates' as 'terminates within N steps'.
+    Instances nest (an outer bound on an iterator, an inner one on a routine it calls)."""
     _tool = None
+    _active = {}        # code object -> list of active instances
 
     def __init__(self, codes, limit):
         self.codes, self.limit, self.n = list(codes), limit, 0
+
+    @staticmethod
+    def _on_line(code, line):
+        for inst in step_bound._active.get(code, ()):
+            inst.n += 1
+            if inst.n > inst.limit:
+                raise StepLimit("more than %d lines executed in %s" % (inst.limit, code.co_name))
 
     def __enter__(self):
         mon = sys.monitoring
         if step_bound._tool is None:
             step_bound._tool = mon.PROFILER_ID
             mon.use_tool_id(step_bound._tool, "vf-step-bound")
-        tool = step_bound._tool
-
-        def on_line(code, line):
-            self.n += 1
-            if self.n > self.limit:
-                raise StepLimit("more than %d lines executed in %s" % (self.limit, code.co_name))
-        mon.register_callback(tool, mon.events.LINE, on_line)
+            mon.register_callback(step_bound._tool, mon.events.LINE, step_bound._on_line)
         for c in self.codes:
-            mon.set_local_events(tool, c, mon.events.LINE)
+            lst = step_bound._active.setdefault(c, [])
+            if not lst:
+                mon.set_local_events(step_bound._tool, c, mon.events.LINE)
+            lst.append(self)
         return self
 
     def __exit__(self, *a):
         mon = sys.monitoring
         for c in self.codes:
-            mon.set_local_events(step_bound._tool, c, 0)
-        mon.register_callback(step_bound._tool, mon.events.LINE, None)
+            lst = step_bound._active.get(c, [])
+            if self in lst:
+                lst.remove(self)
+            if not lst:
+                step_bound._active.pop(c, None)
+                mon.set_local_events(step_bound._tool, c, 0)
         return False
+
+
+def guard_progress(ctx, mod, name, limit_fn):
+    """Persistent bounded-progress guard: every call of mod.name (from anywhere in the library) runs under a
+    step bound of limit_fn(args, kwargs) executed lines.  A call that exceeds it raises StepLimit into its caller."""
+    f = getattr(mod, name)
+    code = getattr(f, "__wrapped__", f).__code__
+
+    def guarded(*a, **k):
+        with step_bound([code], limit_fn(a, k)):
+            return f(*a, **k)
+    guarded.__wrapped__ = getattr(f, "__wrapped__", f)
+    guarded.__name__ = name
+    n = 0
+    for mname, m in list(sys.modules.items()):
+        if m is None or not mname.startswith("dtaidistance"):
+            continue
+        for attr, val in list(vars(m).items()):
+            if val is f:
+                try:
+                    setattr(m, attr, guarded)
+                    n += 1
+                except Exception:
+                    pass
+    ctx.count("progress_guards:%s" % name, n)
+    return guarded
+
+
+def guard_backtracking(ctx):
+    """best_path / best_path2 visit at most rows + columns cells: bound every call, wherever it comes from
+    (warping_path, warp, SubsequenceAlignment, dba)"""
+    from dtaidistance import dtw
+
+    def lim(a, k):
+        try:
+            sh = a[0].shape
+            return 400 * (int(sh[0]) + int(sh[1]) + 10)
+        except Exception:
+            return 400000
+    guard_progress(ctx, dtw, "best_path", lim)
+    guard_progress(ctx, dtw, "best_path2", lim)
